@@ -296,11 +296,13 @@ class PreSerializedCall(Call[Params, Result]):
         :return: Complete serialized argument mapping
         """
         if self._serialized_arguments is None:
-            # Only serialize other_args not already in pre_serialized_args
+            # Only serialize other_args not already in pre_serialized_args; a call-specific
+            # value given for a common key overrides the shared one (as prepare_arguments does)
             other_only = {
                 k: v
                 for k, v in self.other_args.items()
                 if k not in self.common_serialized_args
+                or v is not self.common_args.get(k)
             }
             serialized_other = self.app.client_data_store.serialize_arguments(
                 other_only, self.task.conf.disable_cache_args
